@@ -374,10 +374,78 @@ func c02Gen(tier string, rng *rand.Rand, emit func(Case)) {
 		toks = append(append(append([]string{}, toks[:j]...), "h:11"), toks[j:]...)
 		emit(Case{Line: fmt.Sprintf("rx 1 1 %s", strings.Join(toks, " ")), Kind: "header-only-interleaved"})
 	}
+	// result sets and parameter sets: a format package, data packages that take their format from the
+	// preceding package, messages between format and data, ORDERBY, DONE — over the data types of the
+	// fields codec group (registry generators)
+	rowFields := collectRowFields(tier, rng)
+	nrows := 120
+	if tier == "thorough" {
+		nrows = 1500
+	}
+	for i := 0; i < nrows && len(rowFields) > 0; i++ {
+		body := resultSetResponse(rng, rowFields)
+		if body == nil {
+			continue
+		}
+		ne, nv := rng.Intn(2), rng.Intn(2)
+		emit(Case{Line: fmt.Sprintf("rx %d %d b1:%s", ne, nv, hx(body)), Kind: "rows-whole"})
+		n := len(body)
+		if n <= 160 {
+			for cpos := 1; cpos < n; cpos++ {
+				emit(Case{Line: fmt.Sprintf("rx %d %d %s", ne, nv, strings.Join(cutTokens(body, []int{cpos}), " ")), Kind: "rows-cut1"})
+			}
+		}
+		for k := 0; k < 12; k++ {
+			emit(Case{Line: fmt.Sprintf("rx %d %d %s", ne, nv, strings.Join(cutTokens(body, randomCuts(rng, n, 1+rng.Intn(6))), " ")), Kind: "rows-cuts-random"})
+		}
+	}
 	// the packet layer: read schedules
 	if p := registry["C02rd"]; p != nil {
 		p.Gen(tier, rng, emit)
 	}
+}
+
+// collectRowFields: field lists of ROW / PARAMS packages (with their formats) from the registry generators,
+// without BLOB columns (known finding)
+func collectRowFields(tier string, rng *rand.Rand) [][]string {
+	var rowFields [][]string
+	for _, kind := range []string{"row", "params"} {
+		kind := kind
+		if c := codecRegistry[kind]; c != nil && c.Gen != nil && c.SpecEnc != nil && c.CtxFor != nil {
+			n := 0
+			c.Gen(tier, rand.New(rand.NewSource(rng.Int63())), func(fields string) {
+				f := strings.Fields(fields)
+				if n%7 == 0 && !ffIsBlobCase("pkg spec "+kind+" "+fields) {
+					rowFields = append(rowFields, append([]string{kind}, f...))
+				}
+				n++
+			})
+		}
+	}
+	return rowFields
+}
+
+// resultSetResponse: format, (message), 1..3 data packages (with messages in between), DONE
+func resultSetResponse(rng *rand.Rand, rowFields [][]string) []byte {
+	rf := rowFields[rng.Intn(len(rowFields))]
+	c := codecRegistry[rf[0]]
+	ctx := c.CtxFor(rf[1:])
+	row, ok := c.SpecEnc(rf[1:])
+	if !ok || len(ctx) == 0 || len(ctx)+3*len(row) > 6000 {
+		return nil
+	}
+	var body []byte
+	body = append(body, ctx...)
+	if rng.Intn(3) == 0 { // a message between the format and its data must not break the data
+		body = append(body, rEED(2000+rng.Intn(100), rng.Intn(2) == 0, "note\n").bytes...)
+	}
+	for r := 0; r < 1+rng.Intn(3); r++ {
+		body = append(body, row...)
+		if rng.Intn(5) == 0 {
+			body = append(body, rEED(3000+rng.Intn(100), false, "row message\n").bytes...)
+		}
+	}
+	return append(body, rDone([]int{0, 16, 1}[rng.Intn(3)], rng.Intn(9)).bytes...)
 }
 
 func c02Impl(line string) string {
@@ -558,7 +626,7 @@ func init() {
 		FindingKey: func(line, out, clause string) string { return clause },
 		Nontrivial: func(line, out string) bool { return strings.Count(line, " b") >= 2 || strings.HasPrefix(line, "rd ") },
 		NoShrink:   true, Timeout: 30 * time.Second, Timed: true,
-		Rule: "channel layer: random responses (DONE variants, EED info/non-info, ENVCHANGE incl. PACKSIZE, MSG, RETURNSTATUS, LOGINACK; 0..2 hooks of each kind) fed to the real Channel.WritePacket whole, with every single cut, all pairs of cuts of short responses, random cut sets, one-byte bodies, all 2^(n-1) cut sets of short streams and interleaved header-only packets — compared with the whole-response run of the real code (oracle) and with the Lean receive model; packet layer: the complete stream through the real reader goroutine with read schedules that split headers and bodies. Non-trivial = at least two packets",
-		Assumptions: []string{"responses are built from the package kinds the Lean codec model covers", "net.Conn read semantics for the packet layer"},
+		Rule: "channel layer: random responses (DONE variants, EED info/non-info, ENVCHANGE incl. PACKSIZE, MSG, RETURNSTATUS, LOGINACK; 0..2 hooks of each kind) fed to the real Channel.WritePacket whole, with every single cut, all pairs of cuts of short responses, random cut sets, one-byte bodies, all 2^(n-1) cut sets of short streams, interleaved header-only packets, and result / parameter sets (format, 1..3 data packages over the data types of the fields group, messages between format and data; every single cut of short ones, random cut sets) — compared with the whole-response run of the real code (oracle) and with the Lean receive model; packet layer: the complete stream through the real reader goroutine with read schedules that split headers and bodies. Non-trivial = at least two packets",
+		Assumptions: []string{"responses are built from the package kinds of the codec registry (Basic, Cursor, Fields without BLOB columns)", "net.Conn read semantics for the packet layer"},
 	})
 }
